@@ -162,3 +162,22 @@ func VerifPitcsTokenOf(t PitCsTable, name enc.Name, cbp, mbf bool) (uint32, bool
 	}
 	return 0, false
 }
+
+// VerifPitcsEntryOf returns the live PIT entry (name, canBePrefix, mustBeFresh), or nil. The harness keeps such handles across
+// the entry's removal to exercise RemoveInterest on an entry that is no longer in the table.
+func VerifPitcsEntryOf(t PitCsTable, name enc.Name, cbp, mbf bool) PitEntry {
+	p, isTree := t.(*PitCsTree)
+	if !isTree {
+		return nil
+	}
+	node := p.root.findExactMatchEntryEnc(name)
+	if node == nil {
+		return nil
+	}
+	for _, e := range node.pitEntries {
+		if e.canBePrefix == cbp && e.mustBeFresh == mbf {
+			return e
+		}
+	}
+	return nil
+}
